@@ -191,6 +191,26 @@ pub struct ReadStats {
     pub seeks: u64,
     pub short_reads: u64,
     pub eintr_reads: u64,
+    /// F10 countdown: Some(n) = the n-th read/seek call from now fails once
+    pub arm: Option<u64>,
+    pub hard_errors: u64,
+}
+
+impl ReadStats {
+    fn hard_fault_due(&mut self) -> bool {
+        match self.arm {
+            Some(0) => {
+                self.arm = None;
+                self.hard_errors += 1;
+                true
+            }
+            Some(n) => {
+                self.arm = Some(n - 1);
+                false
+            }
+            None => false,
+        }
+    }
 }
 
 /// `Read + Seek + Reopen` over shared bytes with seeded short reads / `Interrupted`.
@@ -215,6 +235,8 @@ impl SimRead {
                 seeks: 0,
                 short_reads: 0,
                 eintr_reads: 0,
+                arm: None,
+                hard_errors: 0,
             })),
             generation: 0,
         }
@@ -229,6 +251,9 @@ impl Read for SimRead {
         let mut stats = self.stats.lock().unwrap_or_else(|e| e.into_inner());
         if buf.is_empty() {
             return Ok(0);
+        }
+        if stats.hard_fault_due() {
+            return Err(io::Error::new(io::ErrorKind::Other, "injected read error"));
         }
         if self.faults.eintr_pm > 0 && self.rng.below(1000) < self.faults.eintr_pm as u64 {
             stats.eintr_reads += 1;
@@ -254,7 +279,13 @@ impl Read for SimRead {
 
 impl Seek for SimRead {
     fn seek(&mut self, from: SeekFrom) -> io::Result<u64> {
-        self.stats.lock().unwrap_or_else(|e| e.into_inner()).seeks += 1;
+        {
+            let mut stats = self.stats.lock().unwrap_or_else(|e| e.into_inner());
+            stats.seeks += 1;
+            if stats.hard_fault_due() {
+                return Err(io::Error::new(io::ErrorKind::Other, "injected seek error"));
+            }
+        }
         let new = match from {
             SeekFrom::Start(p) => p as i128,
             SeekFrom::Current(d) => self.pos as i128 + d as i128,
